@@ -73,12 +73,16 @@ def gen_pool(rng):
     scale = 10 ** rng.uniform(-0.5, 2.5)
     k = int(rng.integers(1, T + 1))
     betas = np.concatenate([np.zeros(k), np.sort(rng.random(T - k)) * rng.choice([0.05, 0.3, 1.0])])
-    kind = str(rng.choice(["quadratic", "flat", "peaked", "heavy"]))
+    kind = str(rng.choice(["quadratic", "flat", "peaked", "heavy", "needle"], p=[0.23, 0.23, 0.23, 0.23, 0.08]))
+    needle_amp = 10 ** (5 + 4 * (np.log10(scale) + 0.5) / 3.0)
     logl, us = [], []
     for t in range(T):
         u = rng.random((ns[t], d))
         r2 = np.sum((u - 0.5) ** 2, axis=1)
-        l = {"quadratic": -scale * r2, "flat": -1e-3 * scale * r2, "peaked": -100 * scale * r2, "heavy": -scale * np.log1p(50 * r2)}[kind]
+        # "needle": log-likelihood range 1e5..1e9 over the pool - the ESS-admissible step is shorter than the resolution of
+        # the temperature search (1e-4), so no tested temperature above the current one is admissible
+        l = {"quadratic": -scale * r2, "flat": -1e-3 * scale * r2, "peaked": -100 * scale * r2, "heavy": -scale * np.log1p(50 * r2),
+             "needle": -needle_amp * r2}[kind]
         # particles of later batches concentrate as beta grows
         if betas[t] > 0:
             l = l * (1 - 0.8 * betas[t])
